@@ -125,7 +125,7 @@ def run(ctx):
         tlc_job('lead', 'Replication', 'Replication.MC_periodic.cfg', timeout=tmo),
     ]
     if not quick:
-        threads.append(tlc_job('sim', 'Replication', 'Replication.Sim.cfg', timeout=tmo, simulate={'num': 1500}, depth=120))
+        threads.append(tlc_job('sim', 'Replication', 'Replication.Sim.cfg', timeout=tmo, simulate={'num': 500}, depth=120))
     for t in threads:
         t.join()
     if errs:
@@ -176,11 +176,11 @@ def run(ctx):
     e2e_pool = [dict(c, mode='e2e') for c in gen_cases if c['att0'] == 0 and e2e_ok(c, 2600 if quick else 4000)]
     e2e_cases = vlib.sample_list(ctx.rng, e2e_pool, 24 if quick else 300)
     # the same loop over two production-size segments: 6 MB batches, 3 batches, remote accepts everything
-    big_pool = [dict(c, mode='e2e', bodyLen=6 << 20) for c in per_all if nticks(c) == 0 and e2e_ok(c, 0, need_timer=False)]
-    big_cases = vlib.sample_list(ctx.rng, big_pool, 3 if quick else 12)
+    big_pool = [dict(c, mode='e2e', bodyLen=6 << 20, slackMs=240000) for c in per_all
+                if nticks(c) == 0 and e2e_ok(c, 0, need_timer=False)]
+    big_cases = vlib.sample_list(ctx.rng, big_pool, 2 if quick else 12)
     if not big_cases:
         raise vlib.Inconclusive('no two-segment e2e history selected')
-    e2e_cases = e2e_cases + big_cases
     if not e2e_cases or not per_cases:
         raise vlib.Inconclusive('no e2e / periodic history selected')
 
@@ -190,14 +190,21 @@ def run(ctx):
     def slow_job():
         try:
             slow['per'] = ctx.replay(binary, per_cases, procs=1, par=max(1, len(per_cases)), timeout=600, case_timeout='100s')
-            res_e, lines_e = ctx.replay(binary, e2e_cases, procs=1, par=max(1, len(e2e_cases)), timeout=900, case_timeout='100s')
+            n_small = len(e2e_cases)
+            res_e, lines_e = ctx.replay(binary, e2e_cases, procs=1, par=max(1, len(e2e_cases)), timeout=900, case_timeout='200s')
+            time.sleep(0.01)
+            res_g, lines_g = ctx.replay(binary, big_cases, procs=1, par=min(4, len(big_cases)), timeout=1800, case_timeout='600s')
+            for r in res_g:
+                r['id'] += n_small
+            res_e, lines_e = res_e + res_g, lines_e + lines_g
+            e2e_all = e2e_cases + big_cases
             # timing-dependent family: a failure must repeat (twice more) to count; an unrepeatable one is noted only
             for attempt in range(2):
                 bad = [i for i, r in enumerate(res_e) if not r.get('ok') and r.get('kind') != 'infra']
                 if not bad:
                     break
                 time.sleep(0.01)
-                res_b, _ = ctx.replay(binary, [e2e_cases[i] for i in bad], procs=1, par=len(bad), timeout=600, case_timeout='100s')
+                res_b, _ = ctx.replay(binary, [e2e_all[i] for i in bad], procs=1, par=min(4, len(bad)), timeout=1800, case_timeout='600s')
                 for i, r in zip(bad, res_b):
                     if r.get('ok'):
                         r['id'] = i
@@ -231,7 +238,7 @@ def run(ctx):
         'histories_total': len(gen_cases), 'histories_replayed': len(chosen_gen), 'gen_states': tot_gen,
         'age_histories_total': len(age_cases), 'age_histories_replayed': len(chosen_age),
         'periodic_histories_total': len(per_all), 'periodic_histories_replayed': len(per_cases),
-        'e2e_pool': len(e2e_pool), 'e2e_replayed': len(e2e_cases), 'e2e_two_segment_replayed': len(big_cases),
+        'e2e_pool': len(e2e_pool), 'e2e_replayed': len(e2e_cases) + len(big_cases), 'e2e_two_segment_replayed': len(big_cases),
         'simulated_histories_replayed': len(sim_cases),
     })
     ctx.rule = ('writer table: every (answer in 13 kinds, attempts 0..13, drop) row on the real Write. '
@@ -250,8 +257,9 @@ def run(ctx):
         'rq.maxAge read from the real object; one clock tick = 1 h (segment mtimes shifted with Chtimes), maxAge = 1.5 ticks',
         'a local write concurrent with SendWrite is forced only while a request is in flight; TLC checks the contract with '
         'writes between any two steps (EnqAnywhere)',
-        'e2e: timing claim is one-sided (a retry never starts before the armed wait has elapsed); a request not re-sent '
-        'within wait + 20 s is reported',
+        'e2e: the timing claim is one-sided (a retry never starts before the armed wait has elapsed); a request not sent '
+        'within wait + 60 s (240 s for the 6 MB two-segment runs) is reported; an e2e divergence counts only if it '
+        'repeats in two re-runs',
         'an enqueue while the retry timer is armed triggers an immediate SendWrite (the code\'s receive case): modelled as the '
         'code does; the delay rule is checked on the wait returned/armed, not on the absence of earlier attempts',
     ]
@@ -260,8 +268,9 @@ def run(ctx):
 META = {
     'level': 'model_checking',
     'text': 'TLC checks the replication stream design (queue scanner, SendWrite steps, run() select loop, retry timer, max-age '
-            'purge) against the C27 contract exhaustively for 3 batches x response scripts over {204, timeout, 429, '
-            '429+Retry-After, 400, 404, 500} with local writes between any two steps; every maximal history of the generation '
+            'purge) against the C27 contract exhaustively for 3 batches x response scripts (length <= 4 quick, <= 5 thorough) '
+            'over {204, timeout, 429, 429+Retry-After, 400, 404, 500} x drop on/off with local writes between any two steps; '
+            'every maximal history of the generation '
             'configs and every row of the delay-rule table is replayed on the real replicationQueue.SendWrite / run() and '
             'remotewrite writer against a scripted httptest remote, comparing requests, queue content and returned waits.',
     'design_ref': '5.16',
@@ -269,5 +278,8 @@ META = {
             'Chtimes as clock. Not reached: the 60 s purge ticker and the 2 min production client timeout themselves.',
     'technique': 'TLA+ spec (Replication.tla, ReplWriterRules.tla, ReplWriterTable.tla) + TLC exhaustive + replay of TLC '
                  'histories on the real queue manager and writer',
-    'quick_s': 150, 'thorough_s': 1500,
+    # measured on the shared 16-core sandbox limited to 4 TLC workers, one TLC run at a time: quick 160-190 s;
+    # thorough is an estimate from its parts run once (TLC 3x5 checking config 1.26e6 states 66 s, generation configs
+    # 8.98e5 + 2.49e5 states 250 s + 210 s, simulation 20 s per 800 behaviours, replay of ~32 000 histories)
+    'quick_s': 180, 'thorough_s': 1200,
 }
